@@ -13,7 +13,7 @@ import (
 
 func init() {
 	vc.Register(&vc.Check{ID: "C16", Level: "exploration", Run: c16Run, Replay: c16Replay, QuickSec: 150, ThoroSec: 1200,
-		Rule: "inputs: all byte strings of length <=3; all encodings of all trees with <=3 nodes over a tag/length-form/value alphabet (4 nodes thorough); every single-byte substitution, deletion and insertion of every <=2-node encoding; nesting/sibling ladders for the limits. Each input is decoded by the library and by the independent BER reference refber; accepted inputs are compared tree-to-tree, re-encoded, re-decoded, and looked up by (tag, occurrence). distinct_nontrivial = distinct inputs ACCEPTED by the library with >=1 node (hashed)",
+		Rule: "inputs: all byte strings of length <=3; all encodings of all trees with <=3 nodes over a tag/length-form/value alphabet (4 nodes thorough); every single-byte substitution, deletion and insertion of every <=2-node encoding; nesting/sibling ladders for the limits, and the count limit located exactly (bisection) and required to be the same for 9 element kinds (empty/non-empty primitive, empty definite/indefinite/context constructed, constructed with a child) x {flat, inside a definite, inside an indefinite constructed} x {all of that kind, primitives plus one of that kind}. Each input is decoded by the library and by the independent BER reference refber; accepted inputs are compared tree-to-tree, re-encoded, re-decoded, and looked up by (tag, occurrence). distinct_nontrivial = distinct inputs ACCEPTED by the library with >=1 node (hashed)",
 		Assume: []string{"refber implements X.690 §8.1 TLV structure (independent, 200 lines), lenient on tag 00 with non-zero length and non-minimal tag numbers"}})
 }
 
@@ -431,6 +431,85 @@ func c16Run(c *vc.Ctx) {
 			c.Violation(sec4, "limit/no-count-limit", "120000 elements are accepted: no element-count limit", nil, nil)
 		}
 		c.Extra("first_refused_element_count_in_ladder", firstN)
+		// the count limit counts EVERY element, whatever its kind: find the smallest refused number of elements L with
+		// flat empty primitives (bisection; monotone by the ladder above), then for every element kind and every way of
+		// arranging it: L-1 elements (or the nearest below) must be accepted and L (or the nearest above) refused.
+		if firstN > 0 {
+			flat := func(unit []byte, n int) []byte { return bytes.Repeat(unit, n) }
+			refused := func(x []byte) bool { _, err := tlv.Decode(x); return err != nil }
+			lo, hi := 1, 2*firstN+2 // lo accepted, hi refused (the ladder's firstN may stem from the wrapped form: n+1 elements)
+			if refused(flat([]byte{0x04, 0x00}, lo)) || !refused(flat([]byte{0x04, 0x00}, hi)) {
+				c.HarnessError("count-limit bisection: bracket [%d,%d] is not (accepted, refused)", lo, hi)
+			}
+			for hi-lo > 1 {
+				mid := (lo + hi) / 2
+				if refused(flat([]byte{0x04, 0x00}, mid)) {
+					hi = mid
+				} else {
+					lo = mid
+				}
+			}
+			L := hi
+			c.Extra("smallest_refused_element_count", L)
+			kinds := []struct {
+				name  string
+				unit  []byte
+				nodes int
+			}{
+				{"empty primitive", []byte{0x04, 0x00}, 1},
+				{"primitive with value", []byte{0x04, 0x01, 0xAA}, 1},
+				{"2-byte-tag primitive", []byte{0x5F, 0x0F, 0x00}, 1},
+				{"empty constructed (definite)", []byte{0x30, 0x00}, 1},
+				{"empty constructed (indefinite)", []byte{0x30, 0x80, 0x00, 0x00}, 1},
+				{"empty context constructed", []byte{0xA1, 0x00}, 1},
+				{"constructed with one primitive", []byte{0x30, 0x02, 0x04, 0x00}, 2},
+				{"constructed with one empty constructed", []byte{0x30, 0x02, 0x31, 0x00}, 2},
+				{"indefinite constructed with one primitive", []byte{0x30, 0x80, 0x04, 0x00, 0x00, 0x00}, 2},
+			}
+			for _, k := range kinds {
+				for _, wrap := range []int{0, 1, 2} { // flat, inside one definite constructed, inside one indefinite constructed
+					extra := 0
+					if wrap > 0 {
+						extra = 1
+					}
+					for _, filler := range []bool{false, true} { // all elements of this kind / primitives with ONE element of this kind at the end
+						build := func(total int) ([]byte, int) {
+							// total = wanted number of elements overall; returns the input and its real element count
+							var body []byte
+							n := 0
+							if filler {
+								prims := total - extra - k.nodes
+								if prims < 0 {
+									prims = 0
+								}
+								body = append(flat([]byte{0x04, 0x00}, prims), k.unit...)
+								n = prims + k.nodes
+							} else {
+								cnt := (total - extra) / k.nodes
+								body = flat(k.unit, cnt)
+								n = cnt * k.nodes
+							}
+							switch wrap {
+							case 1:
+								body = append(append([]byte{0x31}, encLenC16(len(body))...), body...)
+							case 2:
+								body = append(append([]byte{0x31, 0x80}, body...), 0, 0)
+							}
+							return body, n + extra
+						}
+						for _, total := range []int{L - 1, L, L + 1, 2 * L} {
+							x, n := build(total)
+							got := refused(x)
+							c.Eval(1)
+							c.Outcome(sec4, map[bool]string{true: "count-refused", false: "count-accepted"}[got])
+							if want := n >= L; got != want {
+								c.Violation(sec4, "limit/count-depends-on-element-kind", fmt.Sprintf("%d elements (%s, wrap %d, filler %v) are %s although the count limit refuses %d flat primitives and accepts %d", n, k.name, wrap, filler, map[bool]string{true: "refused", false: "accepted"}[got], L, L-1), map[string]any{"kind": k.name, "wrap": wrap, "filler": filler, "elements": n}, nil)
+							}
+						}
+					}
+				}
+			}
+		}
 	}
 }
 
